@@ -152,6 +152,23 @@ Proof.
 Qed.
 Print Assumptions batch_prune_sound.
 
+(* Hint queries (full_series), hash sharding, repaired key construction (the measurement's shard-key tags are selected from
+   the single tag set, no pruning if one is not bound): the shard of every row satisfying the condition is consulted. A
+   measurement without a shard key hashes name + all tags: sound when the tag set is the row's full tag set, which is what
+   the hint asserts. *)
+Theorem C11_hint_prune_sound : forall (hash : str -> N) c g cond p s,
+  c_typ c = Hash -> wf_group c g -> wf_point p ->
+  (c_sk c = [] -> match cond with
+                  | Some e => forall ts, cond_tags repaired (c_tagkeys c) e = Some [ts] -> sort_tags ts = p_tags p
+                  | None => True end) ->
+  route_in hash c g p = Some s -> eval_cond c cond p = true ->
+  In s (target_hint hash true repaired c g cond).
+Proof.
+  intros hash c g cond p s.
+  exact (hint_prune_sound_proof hash repaired c g cond p s eq_refl (or_introl eq_refl)).
+Qed.
+Print Assumptions C11_hint_prune_sound.
+
 (* ------------------------------------------------------------------ non-vacuity: the hypotheses are satisfiable *)
 Definition B (l : list N) : str := l.
 Definition s_host : str := [104; 111; 115; 116]%N.
